@@ -789,6 +789,80 @@ class H7(Case):
         return obs
 
 
+# ------------------------------------------------------------------------------------------
+# H8  TwoTimeBathCorrelations.correlation: how the kernel sum, the couplings, the free-mode term and the
+#     Schroedinger-picture phase are put together (the kernels themselves stay outside the claim)
+# ------------------------------------------------------------------------------------------
+class H8(Case):
+    """real correlation() on a concrete system-correlation table C (upper triangular, NaN below), with `_calc_kernel`
+    replaced by SYMBOLIC kernels K_R, K_I (recording its arguments) and symbolic band widths dw:
+        value == ( sum_ij [Re C_ij K_R,ij + i Im C_ij K_I,ij] dw_1 sqrt(J(w1)) dw_2 sqrt(J(w2)) + free ) * phase
+        free  == n(w) [T>0] + [dagg == (0,1)]   iff  not change_only, w1 == w2, dagg in ((1,0),(0,1));  n = e^{-w/T}/(1-e^{-w/T})
+        phase == exp(i((2 dagg0 - 1) w2 t2 + (2 dagg1 - 1) w1 t1))   unless interaction_picture
+    i.e. the same-mode free term carries e^{+-i w (t2 - t1)} (<a^dag(t2) a(t1)> = n e^{i w (t2-t1)}, <a(t2) a^dag(t1)> = (n+1) e^{-i w (t2-t1)}).
+    Frequencies, times and temperature are concrete rationals (np.exp runs for real), kernels and dw are symbolic."""
+    functions = ("TwoTimeBathCorrelations.correlation", "TwoTimeBathCorrelations.generate_system_correlations")
+    stubs = ("TwoTimeBathCorrelations._calc_kernel -> symbolic real kernels K_R, K_I of the requested shape (recording its arguments)",)
+    env = ENV_BD
+    DAGGS = ((1, 0), (0, 1), (1, 1), (0, 0))
+
+    def __init__(self, temp, same_mode=True):
+        self.temp, self.same_mode = temp, same_mode
+        self.id = "H8/bath_correlation_T%s_%s" % (temp, "same_mode" if same_mode else "two_modes")
+        self.bounds = {"temperature": temp, "freq_1": 1.25, "freq_2": 1.25 if same_mode else 0.75, "time_1": 0.1, "time_2": 0.3,
+                       "dt": 0.1, "dagg": "all four", "interaction_picture": "both", "change_only": "both"}
+        self.bath = oqupy.Bath(0.5 * oqupy.operators.sigma("z"),
+                               oqupy.PowerLawSD(alpha=0.1, zeta=1.0, cutoff=1.0, cutoff_type="exponential", temperature=float(temp)))
+
+    def run(self, inp):
+        import oqupy.bath_dynamics as bd
+        dt, N = 0.1, 3
+        w1, t1, t2 = 1.25, 0.1, 0.3
+        w2 = w1 if self.same_mode else 0.75
+        k = 3
+        T = float(self.temp)
+        pt = _mk_pt(N, dt)
+        system = oqupy.System(np.zeros((2, 2)))
+        table = np.array([[(1 + i + 2 * j) / 4.0 + 1j * (2 + 3 * i - j) / 8.0 if i <= j else complex(np.nan, np.nan)
+                           for j in range(k)] for i in range(k)], dtype=complex)
+        KR, KI = inp.arr("KR", (k, k)), inp.arr("KI", (k, k))
+        dw = (inp.real("dw0"), inp.real("dw1"))
+        J1 = self.bath.correlations.spectral_density(w1)
+        J2 = self.bath.correlations.spectral_density(w2)
+        obs = []
+        for dagg in self.DAGGS:
+            for ip in (False, True):
+                for co in (False, True):
+                    obj = bd.TwoTimeBathCorrelations(system, self.bath, pt, initial_state=np.eye(2) / 2, system_correlations=table.copy())
+                    kcalls = []
+
+                    def kern(f1, ti1, f2, ti2, dg, _k=kcalls):
+                        _k.append((f1, ti1, f2, ti2, tuple(dg)))
+                        return KR, KI
+                    obj._calc_kernel = kern
+                    with _quiet():
+                        val = obj.correlation(w1, t1, w2, t2, dw=dw, dagg=dagg, interaction_picture=ip, change_only=co,
+                                              progress_type="silent")
+                    tag = "dagg=%s %s%s" % (dagg, "interaction picture" if ip else "Schroedinger picture", ", change only" if co else "")
+                    obs.append(Ob.holds(tag + ": kernel requested for (freq_1, time_1, freq_2, time_2, dagg)",
+                                        kcalls == [(w1, t1, w2, t2, tuple(dagg))], key="kernel_args"))
+                    acc = inp.zero()
+                    for i in range(k):
+                        for j in range(i, k):
+                            acc = acc + table[i, j].real * KR[i, j] + 1j * (table[i, j].imag * KI[i, j])
+                    acc = acc * (dw[0] * J1 ** 0.5) * (dw[1] * J2 ** 0.5)
+                    if (not co) and w1 == w2 and dagg in ((1, 0), (0, 1)):
+                        if T > 0:
+                            acc = acc + np.exp(-w1 / T) / (1 - np.exp(-w1 / T))
+                        if dagg == (0, 1):
+                            acc = acc + 1
+                    if not ip:
+                        acc = acc * np.exp(1j * ((2 * dagg[0] - 1) * w2 * t2 + (2 * dagg[1] - 1) * w1 * t1))
+                    obs.append(ob_eq_poly(inp, tag + ": value == (kernel sum * couplings + free-mode term) * phase", val, acc,
+                                          key="composition"))
+        return obs
+
+
 def cases(tier):
     cs = []
     # ---- H1 _parse_times
@@ -804,6 +878,7 @@ def cases(tier):
         cs += [H2("ordered", ("list2", "list3"), 2, part), H2("anti", ("list2", "list2"), 2, part), H2("nt", ("int", "int", "list2"), 2, part)]
     cs += [H2("nt", ("int", "int", "int", "int"), 3)]          # earlier operators pairwise out of order (needs >= 4 operators)
     cs += [H6(3, 2), H6(4, 3)]
+    cs += [H8(0.8), H8(0, True), H8(0.8, False)]
     cs += [H7("sigma_y"), H7("n_sigma"), H7("sigma_x"), H7("herm3")]
     # ---- H3 dt
     cs += [H3Stub("none"), H3Stub("set"), H3Real("none"), H3Real("set"), H3Real("set", start=0.3), H3Real("none", start=-0.7),
